@@ -71,12 +71,25 @@ def vcut(run, F):
         t = dtree.closure_table(fn.hir, cl, env0)
         nullrow = [(cs, l, ef) for cs, l, ef in t if '!VALID(a0)' in cs]
         valrow = [(cs, l, ef) for cs, l, ef in t if 'VALID(a0)' in cs]
-        ok = len(nullrow) == 1 and nullrow[0][1].endswith('Ok(NULL)') and not nullrow[0][2] and len(valrow) == 1
+        ok = len(nullrow) == 1 and nullrow[0][1].endswith('Ok(NULL)') and not nullrow[0][2]
         outv = None
-        if ok:
+        if ok and len(valrow) == 1:
+            # `out.ok_or_else(|| err)`
             m = re.match(r"(\w+)'*\.ok_or_else\(", valrow[0][1])
             outv = m.group(1) if m else None
             ok = outv is not None and ('%s := NULL' % outv) in valrow[0][2]
+        elif ok and len(valrow) == 2:
+            # `match out { Some(l) => Ok(l), None => Err(..) }`
+            hit = [r for r in valrow if re.fullmatch(r"(?:v1::)?Ok\((\w+)'*\)", r[1])]
+            mis = [r for r in valrow if re.match(r"(?:v1::)?Err\(", r[1])]
+            ok = len(hit) == 1 and len(mis) == 1
+            if ok:
+                outv = re.fullmatch(r"(?:v1::)?Ok\((\w+)'*\)", hit[0][1]).group(1)
+                ok = any(re.fullmatch(r"VALID\(%s'*\)" % outv, c) for c in hit[0][0]) and \
+                    any(re.fullmatch(r"!VALID\(%s'*\)" % outv, c) for c in mis[0][0]) and \
+                    all(('%s := NULL' % outv) in r[2] for r in valrow)
+        else:
+            ok = False
         un = [x for x in walk(cl) if x.get('k') == 'MethodCall' and
               callee_is(x, 'Option::unwrap', 'Option::expect', 'Result::unwrap', 'Result::expect')]
         run.ob('CUT.null', fn, '%s arm: null -> null label, no match -> Err' % arm, ok and not un, loc(cl),
@@ -96,8 +109,21 @@ def vcut(run, F):
                 gg, en_a = dtree.guards_at(fn.hir, asg[0], env0)
                 conds = dtree.simplify(frozenset(c for c in gg if c not in gc and c != 'VALID(a0)')) or frozenset()
                 tgt, val = dtree.canon(asg[0]['ch'][0], en_a), dtree.canon(asg[0]['ch'][1], en_a)
-                # loop pattern (bound, label): b0 = interval, b1 = label
-                want = {'(b0.0 < a0)', '(a0 <= b0.1)'} if is_right else {'(b0.0 <= a0)', '(a0 < b0.1)'}
+                # loop pattern `(bound, label)` or `((lo, hi), label)`: the names of the interval
+                # ends and of the label, whatever the destructuring
+                pat = lp.get('pat', {})
+                lo_n = hi_n = lab_n = None
+                if pat.get('k') == 'Tuple' and len(pat.get('ch', [])) == 2:
+                    pi, pl = pat['ch']
+                    if pl.get('k') == 'Binding':
+                        lab_n = en_a.get(pl['local'])
+                    if pi.get('k') == 'Binding':
+                        lo_n, hi_n = '%s.0' % en_a.get(pi['local']), '%s.1' % en_a.get(pi['local'])
+                    elif pi.get('k') == 'Tuple' and len(pi.get('ch', [])) == 2 and \
+                            all(q.get('k') == 'Binding' for q in pi['ch']):
+                        lo_n, hi_n = en_a.get(pi['ch'][0]['local']), en_a.get(pi['ch'][1]['local'])
+                want = {'(%s < a0)' % lo_n, '(a0 <= %s)' % hi_n} if is_right else \
+                    {'(%s <= a0)' % lo_n, '(a0 < %s)' % hi_n}
                 # first match wins: a `break` follows the assignment in the same block
                 brk = any(x.get('k') == 'Block' and any(peel(st.get('e', {})) is asg[0] for st in x.get('stmts', []))
                           and any(y.get('k') == 'Break' for st in x.get('stmts', []) for y in walk(st.get('e', {}))
@@ -105,7 +131,7 @@ def vcut(run, F):
                                         and any(peel(st.get('e', {})) is asg[0] for st in x.get('stmts', [])))
                           for x in walk(lp['ch'][1]))
                 shape = re.fullmatch(r'(\w+)\.titer\(\)\.tuple_windows\(\)\.zip\(labels\.titer\(\)\)', it)
-                okc = set(conds) == want and tgt == outv and val == 'Some(b1)' and brk and bool(shape)
+                okc = set(conds) == want and tgt == outv and lab_n is not None and val == 'Some(%s)' % lab_n and brk and bool(shape)
                 det = 'test %s (expected %s); `%s = %s`%s; over `%s`' % (
                     sorted(conds), sorted(want), tgt, val, ' then break' if brk else ' WITHOUT break', it[:70])
         run.ob('CUT.closed', fn, '%s-closed interval test' % arm, okc, loc(cl), det)
@@ -174,12 +200,16 @@ def unique(run, F):
         if cl is None:
             run.ob('UNQ.table', fn, 'Keep::%s closure' % nm, False, fn.loc(), 'no closure under `keep is Keep::%s`' % nm)
             continue
-        t = dtree.closure_table(fn.hir, cl, env0)
+        # Option combinators are control flow (`last.as_ref().map(|_| i)` is `if last.is_some() ..`)
+        import pinned
+        hx = pinned.expand_options(fn.hir)
+        clx = [x for x in walk(hx) if x.get('k') == 'Closure' and x.get('sp') == cl.get('sp')]
+        t = dtree.closure_table(hx, clx[0], env0) if clx else dtree.closure_table(fn.hir, cl, env0)
         run.ob('UNQ.table', fn, 'Keep::%s closure' % nm, any(t == w for w in wants), loc(cl),
                'table %s' % dtree.show(t))
     # Keep::Last pipeline: the first element seeds the run state, the rest are enumerated from 0
     # and closed by one trailing null
-    ft = N.tbl(fn)
+    ft = N.tblx(fn)
     last_rows = [(cs, l, ef) for cs, l, ef in ft if 'keep is Keep::Last' in cs]
     ok = len(last_rows) >= 1
     det = '%d row(s) for Keep::Last' % len(last_rows)
@@ -197,14 +227,20 @@ def unique(run, F):
             break
         itn = it[0]
         firsts = [k_ for k_, v_ in defs.items() if v_ == '%s.next()' % itn]
+        if not firsts and any('%s.next()' % itn in c for c in cs):
+            # the first element is consumed in place (`match iter.next() { .. }`): the same
+            # single call, spelled by its expression instead of a name
+            firsts = ['%s.next()' % itn]
+            defs = dict(defs)
         head = '%s.map(|a0| a0).chain(iter::once(NULL)).enumerate().filter_map(' % itn
         pipe = [k_ for k_, v_ in defs.items() if v_.startswith(head)]
         order = [e.split(' := ')[0] for e in ef if ' := ' in e]
         # the pipeline is either bound to a name that is returned or returned directly
         ret_ok = (len(pipe) == 1 and leaf == 'Box::new(%s)' % pipe[0]) or \
             (not pipe and leaf.startswith('Box::new(' + head))
+        named = len(firsts) == 1 and firsts[0] in order
         if not (len(firsts) == 1 and ret_ok and
-                (not pipe or order.index(firsts[0]) < order.index(pipe[0]))):
+                (not pipe or not named or order.index(firsts[0]) < order.index(pipe[0]))):
             ok = False
             det = 'first element: %s; pipeline: %s; returns %s' % (firsts, pipe, leaf[:40])
             break
@@ -212,12 +248,14 @@ def unique(run, F):
         # run state seeded from the first element: Some(first) when it is valid, else null
         about = frozenset(c for c in cs if fe in c)
         seed = [v_ for k_, v_ in defs.items() if v_ in ('Some(%s)' % fe, 'NULL') and
-                order.index(firsts[0]) < order.index(k_) and (not pipe or order.index(k_) < order.index(pipe[0]))]
+                (not named or order.index(firsts[0]) < order.index(k_)) and
+                (not pipe or order.index(k_) < order.index(pipe[0]))]
         seeds_seen.add((about, tuple(seed)))
         det = 'first element consumed, the rest enumerated from 0 with a sentinel None'
     if ok:
         fe_names = {c for a_, _ in seeds_seen for c in a_}
-        norm_ = {(frozenset(re.sub(r'v\d+', 'F', c) for c in a_), tuple(re.sub(r'v\d+', 'F', x) for x in sd))
+        norm_ = {(frozenset(re.sub(r'v\d+(\.next\(\))?', 'F', c) for c in a_),
+                  tuple(re.sub(r'v\d+(\.next\(\))?', 'F', x) for x in sd))
                  for a_, sd in seeds_seen}
         oks = norm_ == {(frozenset({'VALID(F)'}), ('Some(F)',)), (frozenset({'!VALID(F)'}), ('NULL',))}
         run.ob('UNQ.table', fn, 'Keep::Last run state seeded from the first element', oks, fn.loc(),
